@@ -323,21 +323,26 @@ public:
 
 		{
 			std::lock_guard<Mutex> lockGuard(mutex);
+			EVENTPP_VERIF_POINT("cl.foreach.head.cs");
 			node = head;
 		}
 
 		const Counter counter = currentCounter.load(std::memory_order_acquire);
 
 		while(node) {
+			EVENTPP_VERIF_RACY_READ_BEGIN();
 			if(node->counter != removedCounter && counter >= node->counter) {
+				EVENTPP_VERIF_RACY_READ_END();
 				node->callback(args...);
 				if(! CanContinueInvoking::canContinueInvoking(args...)) {
 					break;
 				}
 			}
+			EVENTPP_VERIF_RACY_READ_END();
 
 			{
 				std::lock_guard<Mutex> lockGuard(mutex);
+				EVENTPP_VERIF_POINT("cl.foreach.next.cs");
 				node = node->next;
 			}
 		}
